@@ -720,9 +720,12 @@ where
                         // Down is terminal, so before doing that we ensure the member
                         // is still under suspicion.
                         // Checking only incarnation is sufficient because to refute
-                        // suspicion the member must increment its own incarnation
+                        // suspicion the member must increment its own incarnation.
+                        // The identity must match too: the address may have been
+                        // forgotten and learned again under an older identity since
+                        // the suspicion was raised
                         .apply_existing_if(as_down.clone(), |member| {
-                            member.incarnation() == incarnation
+                            member.id() == &member_id && member.incarnation() == incarnation
                         })
                     {
                         let declared_down = summary.apply_successful;
